@@ -182,3 +182,9 @@ pub fn find_entry(
 ) -> ((u64, usize), (u64, usize)) {
 	crate::index::IndexTable::verif_find(index_bits, key_prefix, start, chunk)
 }
+
+/// Remaining budget of the instrumentation I/O failure injector on this thread.
+#[cfg(feature = "instrumentation")]
+pub fn io_budget_left() -> usize {
+	crate::error::IO_COUNTER_BEFORE_ERROR.with(|v| v.load(Ordering::SeqCst))
+}
